@@ -46,6 +46,7 @@ void svt_verif_event(int kind, uint64_t a, uint64_t b, uint64_t c, uint64_t d)
 #define SVT_VERIF_EV_SEG_RESET 24 /* a=pcs, b=picture number: picture is re-encoded (recode loop) */
 #define SVT_VERIF_EV_DEC_TOOL 40 /* a=tool bit (1 palette, 2 intrabc, 4 filter intra, 8 CfL, 16 inter-intra, 32 OBMC, 64 local warp): emitted where the syntax element selecting the tool is read */
 #define SVT_VERIF_EV_DEC_FRAME_HDR 41 /* a=field id, b=value */
+#define SVT_VERIF_EV_ENC_FATAL 50 /* a=internal error code: the encoder's fatal-error handler was called (the calling thread spins for ever afterwards) */
 #else
 #define SVT_VERIF_SPIN() \
     do {                 \
